@@ -226,7 +226,8 @@ Loop-body reading (`emit_loop`, `Fn(..., loop_mode=True)`; added for C11, used b
 
 The C05 growth branch extended this reader in ways that conflicted textually with the other branches; its variant is kept
 as `harness/exprtrans_c05.py` and used only by `extractors/exprs_ref.py` (reference.calculate_gc_lo, shift_sex_chroms,
-CopyNumArray.expect_flat_log2).
+CopyNumArray.expect_flat_log2).  Likewise the C07 branch's table reader (`TableFn` / `emit_table`) lives in
+`harness/exprtrans_c07.py` and is used only by `extractors/exprs_ranges.py`.
 """
 from __future__ import annotations
 
